@@ -219,13 +219,27 @@ func (cluster *Cluster) Do(cmd string, args ...interface{}) (interface{}, error)
 	return cluster.do(node, cmd, args...)
 }
 
+// sentNoReplyError marks a failure that happened after the request had been written to a node : whether the
+// node applied it is unknown.
+type sentNoReplyError struct{ err error }
+
+func (e *sentNoReplyError) Error() string { return e.err.Error() }
+func (e *sentNoReplyError) Unwrap() error { return e.err }
+
+func sentNoReply(err error) bool {
+	var e *sentNoReplyError
+	return errors.As(err, &e)
+}
+
 func (cluster *Cluster) do(node *redisNode, cmd string, args ...interface{}) (interface{}, error) {
 	reply, err := node.do(cmd, args...)
 	if err != nil {
 		if err == common.ErrNil {
 			return nil, err
 		}
-		return nil, fmt.Errorf("Do failed[%v]", err)
+		// node.do answers an unreachable node with a reply (ECONNTIMEOUT) : an error here is a failed write or read
+		// on an established connection
+		return nil, &sentNoReplyError{fmt.Errorf("Do failed[%v]", err)}
 	}
 	return cluster.handleReply(node, reply, cmd, args...)
 }
@@ -241,6 +255,12 @@ func (cluster *Cluster) handleReply(node *redisNode, reply interface{}, cmd stri
 			return nil, common.ErrMove
 		}
 		if ret, err := cluster.handleMove(node, reply.(common.RedisError).Error(), cmd, args); err != nil {
+			if sentNoReply(err) {
+				// the followed request reached the new node and may have been applied : that is not "the command was
+				// refused". A caller that sends its queue again on ErrMove (syncer sendFunc) would replay commands the
+				// target already has - below the resume position, when the followed request was the one storing it.
+				return ret, fmt.Errorf("handle move failed[%w]", err)
+			}
 			return ret, errors.Join(common.ErrMove, fmt.Errorf("handle move failed[%w]", err))
 		} else {
 			return ret, nil
@@ -250,6 +270,9 @@ func (cluster *Cluster) handleReply(node *redisNode, reply interface{}, cmd stri
 			return nil, common.ErrAsk
 		}
 		if ret, err := cluster.handleAsk(node, reply.(common.RedisError).Error(), cmd, args); err != nil {
+			if sentNoReply(err) {
+				return ret, fmt.Errorf("handle ask failed[%w]", err)
+			}
 			return ret, errors.Join(common.ErrAsk, fmt.Errorf("handle ask failed[%w]", err))
 		} else {
 			return ret, nil
@@ -527,19 +550,19 @@ func (cluster *Cluster) handleAsk(node *redisNode, replyMsg, cmd string, args []
 	err = conn.flush()
 	if err != nil {
 		conn.shutdown()
-		return nil, fmt.Errorf("handleAsk: %w", err)
+		return nil, &sentNoReplyError{fmt.Errorf("handleAsk: %w", err)}
 	}
 
 	re, err := common.String(conn.receive())
 	if err != nil || re != "OK" {
 		conn.shutdown()
-		return nil, fmt.Errorf("handleAsk: %w", err)
+		return nil, &sentNoReplyError{fmt.Errorf("handleAsk: %w", err)}
 	}
 
 	reply, err := conn.receive()
 	if err != nil {
 		conn.shutdown()
-		return nil, fmt.Errorf("handleAsk: %w", err)
+		return nil, &sentNoReplyError{fmt.Errorf("handleAsk: %w", err)}
 	}
 
 	newNode.releaseConn(conn)
